@@ -105,7 +105,7 @@ func runProcScenario(c07, c08 *verifrt.Result, base string, s *concScenario, rnd
 			st = s.Script[seq]
 		}
 		_, err := os.Stat(filepath.Join(td.dir.UploadDir(), week+".json"))
-		acks = append(acks, ackRec{Seq: seq, Week: week, Status: st, Round: round, MarkerExists: err == nil})
+		acks = append(acks, ackRec{Seq: seq, Week: week, Status: st % 1000, Round: round, MarkerExists: err == nil})
 		return st
 	}
 	c07.Eval()
